@@ -109,6 +109,7 @@ def gen_cases(tier, seed):
     for G in ((3, 4) if q else (3, 4, 5)):
         for aff in ('id', 'dyadic') + (tuple(VARIETY_AFF) if G == 3 or not q else ()):
             cases.append(dict(kind='is_left', G=G, aff=aff))
+    cases.append(dict(kind='is_left', G=3, aff='int_thin'))
     # rays
     for dim, G in ((2, 3), (3, 2)):
         pts = _grid_pts(G, dim)
@@ -271,8 +272,16 @@ def _is_left_case(case, ctx):
     pts = _grid_pts(G, 2)
     ctx.state(dict(k='is_left', G=G, aff=aff))
     triples = case.get('triples') or itertools.product(pts, repeat=3)
+    if aff == 'int_thin' and not case.get('triples'):
+        # thin triangles with huge INTEGER coordinates (Python ints, as a caller working on an integer grid passes them): the
+        # determinant is 1 or 2 while its two products exceed 2**53 - exact in integer arithmetic, lost in floating point
+        triples = []
+        for A_ in (94906267, 10 ** 9 + 7, 3 * 10 ** 15 + 1):
+            B_ = A_ - 1
+            base_pts = [(0, 0), (A_, B_), (A_ + 1, B_ + 1), (2 * A_, 2 * B_ + 1), (A_ + 1, B_)]
+            triples += [[list(p) for p in t] for t in itertools.permutations(base_pts, 3)]
     for a, b, c in triples:
-        fa, fb, fc = _aff(a, aff), _aff(b, aff), _aff(c, aff)
+        fa, fb, fc = (list(a), list(b), list(c)) if aff == 'int_thin' else (_aff(a, aff), _aff(b, aff), _aff(c, aff))
         o = R.orient([F(x) for x in fa], [F(x) for x in fb], [F(x) for x in fc])
         se = (o > 0) - (o < 0)
         rc = dict(case, triples=[[a, b, c]])
